@@ -96,12 +96,11 @@ def bfs_prefixes(g):
 def replay_path(ctx, g, path, kind, flavor, rootlen, rng, step_no=[0]):
     """Execute one model behaviour on a fresh arena.  Returns (trace, divergence or None)."""
     sz = kind.sz
-    pad = mc.PAD if flavor in ("slice", "frombuf") else 0
     n = 1 if flavor == "own" else rootlen
-    guard = bytes((0xA0 + k) % 256 for k in range(pad * sz))
     init_model = g.states[g.init[0]]["mem"]
-    init = guard + bytes(init_model) + guard
-    ar = mc.Arena(kind, flavor, n, init)
+    mkguard = lambda pad: bytes((0xA0 + k) % 256 for k in range(pad * sz))
+    ar = mc.new_arena(kind, flavor, n, lambda items, pad: mkguard(pad) + bytes(init_model) + mkguard(pad))
+    guard = mkguard(ar.pad)
     trace = ar.header()
     trace["ev"] = []
     div = None
@@ -111,7 +110,7 @@ def replay_path(ctx, g, path, kind, flavor, rootlen, rng, step_no=[0]):
         op = model_op(res)
         step_no[0] += 1
         if op["op"] == "assign":
-            op["src"] = ("list", "tuple", "iter", "bytes")[step_no[0] % 4]
+            op["src"] = "bytes" if res["src"] == "bytes" else ("list", "tuple", "iter")[step_no[0] % 3]
         if op["op"] == "add":
             op["swap"] = step_no[0] % 3 == 0
         ev, why = mc.careful_apply(ar, op, trace["ev"])
@@ -169,7 +168,7 @@ def submit_dumps(ctx, jobs):
 
 def spec_to_code(ctx, jobs, traces, metas, divergences):
     quick = ctx.quick
-    budget = 1200 if quick else 100000
+    budget = 1200 if quick else 5000
     for isz, rootlen, rootkind, maxviews, maxsteps in dump_confs(ctx):
         dump = os.path.join(ctx.tmp, "mg_%d_%d_%s" % (isz, rootlen, rootkind))
         name = "dump(sz=%d,n=%d,%s)" % (isz, rootlen, rootkind)
@@ -190,6 +189,8 @@ def spec_to_code(ctx, jobs, traces, metas, divergences):
         trusted = True
         for idx, (n, e) in enumerate(edges[:budget]):
             kind = mc.KINDS[kinds[idx % len(kinds)]]
+            if any(g.states[x[2]]["res"]["src"] == "bytes" for x in pre[n] + [e]):
+                kind = mc.KINDS["char"]          # bytes as the right-hand side exists for char arrays only
             flavor = flavors[(idx // len(kinds)) % len(flavors)]
             if not trusted and flavor in ("new_fixed", "new_var", "own"):
                 flavor = flavors[0]
@@ -285,10 +286,8 @@ def gen_op(rng, ar, maxviews=10):
 
 
 def random_trace(ctx, rng, kind, flavor, n, nops):
-    pad = mc.PAD if flavor in ("slice", "frombuf") else 0
     n = 1 if flavor == "own" else n
-    init = b"".join(kind.gen(rng) for _ in range(n + 2 * pad))
-    ar = mc.Arena(kind, flavor, n, init)
+    ar = mc.new_arena(kind, flavor, n, lambda items, pad: b"".join(kind.gen(rng) for _ in range(items + 2 * pad)))
     tr = ar.header()
     ev = tr["ev"] = []
     queue = []
@@ -320,7 +319,7 @@ def random_trace(ctx, rng, kind, flavor, n, nops):
 def code_to_spec(ctx, traces, metas):
     rng = ctx.rng
     names = sorted(mc.KINDS)
-    ntr = 70 if ctx.quick else 1500
+    ntr = 70 if ctx.quick else 1000
     for t in range(ntr):
         kind = mc.KINDS[names[t % len(names)]]
         flavor = (mc.FLAVORS_ARR + ["own"])[(t // len(names)) % 5] if t >= 10 else mc.FLAVORS_ARR[t % 2]
@@ -366,7 +365,7 @@ def design_runs(ctx):
             ("MC_Memory(sz=1,arr n=3,views<=2,steps<=2,idx -1..4)", mc.memory_cfg(1, 3, "arr", 2, 2, 1, 4))]
     if not ctx.quick:
         runs += [("MC_Memory(sz=1,arr n=3,views<=3,steps<=3,idx -1..4)", mc.memory_cfg(1, 3, "arr", 3, 3, 1, 4)),
-                 ("MC_Memory(sz=2,arr n=2,views<=4,steps<=4,idx -1..3)", mc.memory_cfg(2, 2, "arr", 4, 4, 1, 3)),
+                 ("MC_Memory(sz=2,arr n=3,views<=3,steps<=3,idx -1..4)", mc.memory_cfg(2, 3, "arr", 3, 3, 1, 4)),
                  ("MC_Memory(sz=8,arr n=2,views<=3,steps<=3,idx -2..3)", mc.memory_cfg(8, 2, "arr", 3, 3, 2, 3))]
     return runs
 
